@@ -137,4 +137,58 @@ CHECKS = {
         technique="TLA+ unifier model with nondeterministic fold order (confluence as a state predicate); TLC trace "
                   "validation of repeated runs of the real code",
         ref="DESIGN.md §4 C02"),
+    "C04": dict(
+        category="model_checking",
+        text="Idioms.tla specifies ground-truth contracts (variables of kind word / address-masked word / mapping of depth "
+             "1-4 with address or word keys / dynamic array / packed word of 2-6 byte-aligned fields, at arbitrary slots, "
+             "read, written or both from separate dispatch branches) and Expected(v, layout): an entry at the right slot "
+             "whose kind matches - mapping of exactly the right depth with 20-byte keys/values where masked, dynamic "
+             "array, packed entries at the right bit offsets with the right widths. IdiomsGen (TLC) enumerates every "
+             "single variable over the grid and pairs at distinct slots; the harness assembles each description, the real "
+             "pipeline analyses it and LayoutTrace.tla evaluates Inv_C04_Expected; random contracts of 1-12 variables "
+             "extend the enumeration.",
+        note="Expected is deliberately weaker than type equality (kind, depth, offsets, widths, 20-byte-ness). One "
+             "genuine shortfall is a known finding (packed variables that are only ever written).",
+        technique="TLA+ generator model enumerated by TLC and replayed into the real pipeline; TLC trace validation of the layouts",
+        ref="DESIGN.md §4 C04"),
+    "C05": dict(
+        category="model_checking",
+        text="SlotFlow.tla: Inv_C05_NoPhantom - every slot of a returned layout is attributable to the key term of a storage "
+             "access the VM performed (constants in key terms closed under the documented derivations: folding, keccak of "
+             "constant data incl. the proxy-string forms, pre-image of keccak(n) for n < 10000, +/- a constant); a program "
+             "without storage accesses yields an empty layout. Evaluated by LayoutTrace.tla on every analysed program: "
+             "storage-free look-alike hashing, look-alike hashes used as values, idiom contracts, mutated real contracts.",
+        note="The derivation closure is computed by the harness from ExecutionResult::all_values(). Known finding: a "
+             "look-alike hash inside the VALUE operand of a store.",
+        technique="TLA+ monitor specification; TLC trace validation of recorded key terms and layouts",
+        ref="DESIGN.md §4 C05"),
+    "C06": dict(
+        category="model_checking",
+        text="SlotFlow.tla: Inv_C06_NoMissed - every literal-constant key of an executed SLOAD/SSTORE/unwritten read (other "
+             "than keccak(n), n < 10000) on any explored path has an entry at exactly that 256-bit index when the analysis "
+             "succeeds; checked by LayoutTrace.tla on programs with keys of every magnitude (small, >= 2^64, >= 2^128, "
+             "2^256-1, EIP-1967) read-only / write-only / mixed, behind forks and before errors, and on all other corpora.",
+        note="Indices are compared as full 64-digit hex words.",
+        technique="TLA+ monitor specification; TLC trace validation",
+        ref="DESIGN.md §4 C06"),
+    "C11": dict(
+        category="exploration",
+        text="Two-run relational acceptor in LayoutTrace.tla: Inv_C11_Union (layout(A||B) = layout(A) union layout(B) for "
+             "fragments with disjoint slot sets behind a dispatcher, both orders) and Inv_C11_Rename (an injective "
+             "renumbering of the slot constants, incl. small -> > 2^128 and changed PUSH width, renumbers the entries and "
+             "changes no type or offset), on generated idiom fragments.",
+        note="The specification contributes the fragment generator (Idioms) and the relational acceptor, not a model of "
+             "inference; a hyperproperty over two or three runs.",
+        technique="TLA+ relational acceptor over recorded layouts of composed / renumbered generated contracts",
+        ref="DESIGN.md §4 C11"),
+    "C12": dict(
+        category="model_checking",
+        text="Layout.tla: Inv_C12_Sorted (entries ordered by 256-bit index compared as byte sequences, then bit offset) and "
+             "Inv_C12_InSlot (offset < 256 and offset + width <= 256 when the width is known) evaluated by LayoutTrace.tla "
+             "on every successful analysis of every corpus, in particular mask-and-shift programs with shift amounts and "
+             "mask positions from {0, 8, 248, 255, 256, 257, 300, 2^32, 2^64-1, 2^64, 2^255, 2^256-1} through SHR/SHL/SAR/"
+             "DIV/MUL, nested packed idioms and mutated real contracts.",
+        note="Width is defined for every AbiType of known width.",
+        technique="TLA+ layout well-formedness invariants; TLC trace validation",
+        ref="DESIGN.md §4 C12"),
 }
